@@ -68,6 +68,47 @@ def import_repo() -> None:
     logging.disable(logging.CRITICAL)
 
 
+class debug_logging:
+    """Context manager: the process configuration 'debug logging switched on with a handler that formats every
+    record' (what `logging.basicConfig(level=DEBUG)` - which numba_scfg.rendering itself calls on import - gives a
+    user).  The library's lazily formatted debug messages are then really evaluated.  Output goes nowhere.  The
+    properties must hold under this configuration exactly as with logging off."""
+
+    class _Sink:
+        def write(self, s):
+            return len(s)
+
+        def flush(self):
+            pass
+
+    def __enter__(self):
+        import logging
+
+        root = logging.getLogger()
+        self._saved = (root.manager.disable, root.level, list(root.handlers))
+        for h in list(root.handlers):
+            root.removeHandler(h)
+        h = logging.StreamHandler(self._Sink())
+        h.setFormatter(logging.Formatter("%(levelname)s %(name)s %(message)s"))
+        root.addHandler(h)
+        root.setLevel(logging.DEBUG)
+        logging.disable(logging.NOTSET)
+        return self
+
+    def __exit__(self, *exc):
+        import logging
+
+        root = logging.getLogger()
+        for h in list(root.handlers):
+            root.removeHandler(h)
+        dis, lvl, hs = self._saved
+        for h in hs:
+            root.addHandler(h)
+        root.setLevel(lvl)
+        logging.disable(dis)
+        return False
+
+
 # --------------------------------------------------------------------------
 # hashing / normalisation
 
